@@ -10,7 +10,7 @@ from ..draw import composite
 
 RULE = ("(a) tokenizer: ALL strings of length <= k over the 24-symbol lexical alphabet (k=3 quick, 4 thorough), Hypothesis lexeme soups, long "
         "runs of one unmatched character / splice / quote; oracle: list(Lexer(file)) returns - any exception or a step-budget overrun is a "
-        "violation.  (b) pipeline, under a .c and a .h name: ALL strings of length <= k over a 12-symbol alphabet as whole files; generated conforming/violating programs cut at lexeme boundaries (prefixes) and "
+        "violation.  (b) pipeline, under a .c and a .h name: ALL strings of length <= k over a 12-symbol alphabet and ALL sequences of <= k lexemes of a 20-word C vocabulary as whole files; generated conforming/violating programs cut at lexeme boundaries (prefixes) and "
         "damaged by <= 2 lexeme edits (delete / insert from a C vocabulary / replace / swap); raw-byte files (Latin-1, BOM, NUL, CR-LF) through "
         "the CLI; oracle: a verdict or exactly the controlled fatal error (CParsingError), never another exception, never more primitive steps "
         "than B(n)=2e5+400n^2; CLI sample: exit in {0,1}, no traceback, fatal block on fatal.  (c, thorough) coverage-guided libFuzzer campaigns "
@@ -71,6 +71,22 @@ def shard_pipe_exhaustive(n, lo, hi):
             camp.case(name + "\0" + t, len(classes_of(t)) >= 2)
             camp.count("pipeline-exhaustive")
             pipe_one(camp, name, t, "pipeline-exhaustive")
+    return camp
+
+
+LEX20 = ["int", "x", ";", "(", ")", "{", "}", "*", "=", "1", ",", "\n", "\t", " ", "#", "if", "struct", "[", "]", "return"]
+
+
+def shard_pipe_lexemes(n, lo, hi):
+    """every sequence of n lexemes of a 20-word C vocabulary, glued, as a whole file (.c and .h): the shortest statements and
+    fragments of statements, with and without a final newline"""
+    camp = core.Campaign()
+    for idx in range(lo, hi):
+        t = "".join(soup.nth_string(LEX20, n, idx)) if False else "".join(LEX20[(idx // (20 ** k)) % 20] for k in range(n - 1, -1, -1))
+        for name in ("x.c", "x.h"):
+            camp.case(name + "\0" + t, n >= 2)
+            camp.count("pipeline-lexeme-sequences")
+            pipe_one(camp, name, t, "lexeme-sequences")
     return camp
 
 
@@ -419,6 +435,12 @@ def run(pid, tier, seed):
         chunk = max(1, -(-total // 16))
         for lo in range(0, total, chunk):
             jobs.append(dict(fn=shard_pipe_exhaustive, kw=dict(n=n, lo=lo, hi=min(total, lo + chunk))))
+    for n in range(1, k + 1):
+        total = 20 ** n
+        sizes["pipeline lexemes=%d" % n] = total
+        chunk = max(1, -(-total // 16))
+        for lo in range(0, total, chunk):
+            jobs.append(dict(fn=shard_pipe_lexemes, kw=dict(n=n, lo=lo, hi=min(total, lo + chunk))))
     for s in range(8):
         jobs.append(dict(fn=shard_lex_soup, kw=dict(seed=core.seed_of(seed, s, 5), n=nsoup)))
     for s in range(16):
